@@ -4,7 +4,7 @@ def main(tier, args):
     t0 = time.time()
     exe = vf.build("C04/signals", [vf.VERIF + "/checks/C04/harness.cpp"], vf.module_sources("event", exclude=("event/common_loop_signal.cpp",)), mode="asan",
                    plain_srcs=[vf.VERIF + "/engine/sched/log_stub.cpp"])
-    depth, depth_b, depth_c, depth_c1, depth_ci, depth_d, gen_cap, dl = (6, 6, 6, 5, 5, 4, 1, 120) if tier == "quick" else (8, 7, 10, 8, 8, 7, 2, 1200)
+    depth, depth_b, depth_c, depth_c1, depth_ci, depth_d, depth_e, gen_cap, dl = (6, 6, 6, 5, 5, 4, 5, 1, 120) if tier == "quick" else (8, 7, 10, 8, 8, 7, 8, 2, 1200)
     cenv = {"VERIF_WORKERS": "2", "C04_GEN_CAP": str(gen_cap), "C04_LANE_C_DESTROY": "0" if tier == "quick" else "1"}
     res = vf.Result(); log = open(vf.BUILD + "/C04/log.txt", "w")
     jobs = [("%s:cfg%d:A" % (e, c), [exe, e, str(depth), str(c), "A"]) for e in ("epoll", "select") for c in (0, 1, 2)]
@@ -12,6 +12,7 @@ def main(tier, args):
     jobs += [("%s:cfg%d:C" % (e, c), [exe, e, str(depth_c1 if c == 1 else depth_c), str(c), "C"], cenv) for e in ("epoll", "select") for c in (0, 1, 2)]
     jobs += [("%s:cfg%d:D" % (e, c), [exe, e, str(depth_d), str(c), "D"], {"VERIF_WORKERS": "2"}) for e in ("epoll", "select") for c in (1,)]
     jobs += [("%s:cfg1:Ci" % e, [exe, e, str(depth_ci), "1", "Ci"], cenv) for e in ("epoll", "select")]
+    jobs += [("%s:cfg1:E" % e, [exe, e, str(depth_e), "1", "E"], {"VERIF_WORKERS": "2"}) for e in ("epoll", "select")]
     if args.only: jobs = [j for j in jobs if j[0] == args.only]
     vf.run_procs(res, jobs, env={"VERIF_DEADLINE_S": str(dl), "VERIF_WORKERS": "3"}, log=log)
     vf.finish(PID, tier, res, t0,
@@ -27,12 +28,14 @@ def main(tier, args):
                    "Lane D (depth %d, both engines, config 1) initialise-again: e0, e3, e7: enable/disable on all three, destroy on e0,e7; addsig (= initialize() again through the accumulating int / initializer_list overloads, adding the other signal; e7's list calls pass kOneshot: mode of the last initialize wins) on enabled and disabled events incl. enable() before any initialize(); "
                    "addbad(e0) = initialize(SIGSTOP) (every later enable must fail as a whole: on an enabled event it keeps its subscriptions, on a disabled one both USR signals are rolled back); setsig(e0) = initialize(std::set{USR2}) on the disabled event (assigns); + single deliveries; "
                    "model: the accumulated set takes effect at the next enable() that returns true, from then on the enabled event gets its callbacks for the whole set and disable/destroy restores every disposition. "
+                   "Lane E (depth %d, both engines, config 1) callback scripts: e0 {USR1}, e1 {USR1,USR2}, e8 {USR1}, all persistent on loop 0: enable/disable + cbscript (set once: one event's signal callback, every time it runs, disables the next / the previous / both other events of the ring e0,e1,e8, disables itself, or enables the next one; never destroys) + single deliveries; "
+                   "model: an event disabled or enabled by a callback of the same delivery gets 0 or 1 callback for that delivery, everything else and every later delivery is exact; memory safety is decided by ASan. "
                    "Pre-installed dispositions (USR1,USR2) in {(SIG_IGN,SIG_DFL), (plain handler, SA_SIGINFO handler), (SIG_DFL, plain handler)}, each signal with its own handler function, sa_mask and sa_flags; a delivery that would hit a (restored) SIG_DFL is not offered. "
                    "Oracle (reference model only): per delivery script every enabled persistent subscriber gets exactly as many callbacks per signal as that signal was delivered, with that signal number, on its loop's thread; a one-shot exactly one; nobody else any; "
                    "the pre-installed handler of each signal is invoked once per delivery of its own signal with (signo, siginfo->si_signo, non-null context) and never for the other signal; isEnabled() agrees with the model; enable() returns what the model says; "
                    "each loop thread's signal mask is the same (non-empty) after every operation as at thread start; sigaction() equals the pre-subscription disposition whenever a signal has no subscriber and after every event has been destroyed"
-                   % (depth, depth_b, depth_c, depth_c1, "" if tier == "quick" else " + destroy(e0) in configs 0 and 2", gen_cap, depth_ci, depth_d),
-              assumptions=["deliveries happen only while no subscription change is in progress and subscription changes are never made inside a signal callback apart from the one-shot's own self-disable (DESIGN 1.7)",
+                   % (depth, depth_b, depth_c, depth_c1, "" if tier == "quick" else " + destroy(e0) in configs 0 and 2", gen_cap, depth_ci, depth_d, depth_e),
+              assumptions=["deliveries happen only while no subscription change is in progress and subscription changes are never made inside a signal callback apart from the one-shot's own self-disable (DESIGN 1.7), except in lane E (disable/enable of events of the same loop from a persistent event's signal callback; destroying an event there is a documented FIXME of the library and is not generated)",
                            "disposition compared as handler + sa_mask + (sa_flags & ~SA_RESTORER) (glibc always adds SA_RESTORER)",
                            "several deliveries before one pass: the one-shot clause (at most once) takes precedence over one-callback-per-delivery; order of callbacks between signals is not checked",
                            "lanes B, C, Ci and D use reduced event sets / one disposition config (B, Ci, D); lane A's state key does not contain the re-subscription counters (lane C's does)",
